@@ -584,6 +584,18 @@ func (l *lexer) newNumber(text string) ast.Node {
 	return l.newNumeric(text)
 }
 
+// newRegex returns an ast.RegexNode for expr, pattern, and flags. If pattern
+// or flags are invalid it records the error and returns expr, rather than a
+// nil node, so that parsing can carry on to report it.
+func (l *lexer) newRegex(expr ast.Node, pattern, flags string) ast.Node {
+	node, err := ast.NewRegex(expr, pattern, flags)
+	if err != nil {
+		l.Error(err.Error())
+		return expr
+	}
+	return node
+}
+
 // anyLevel returns the .** nesting level for the integer literal text. Records
 // an error if it's out of range.
 func (l *lexer) anyLevel(text string) int {
